@@ -375,3 +375,41 @@ func vh_CondSwap() {
 		verif.Assert(a.inner[i] == wa && b.inner[i] == wb, "swap iff choice=1")
 	}
 }
+
+// ---- back-end specific helpers for the abstract layer (fa.go) ----
+
+func VerifVal(e *Element) verif.Int { return val2625(&e.inner) }
+func mulInOK(e *Element) bool       { return mulInputOK(&e.inner) }
+func redOutOK(e *Element) bool      { return reducedOK(&e.inner) }
+func addInOK(e *Element) bool {
+	ok := true
+	for i := 0; i < 10; i++ {
+		ok = ok && e.inner[i] < 1<<31
+	}
+	return ok
+}
+func subBOK(e *Element) bool {
+	ok := true
+	for i := 0; i < 10; i += 2 {
+		ok = ok && e.inner[i] < 0x3ffffed<<4 && e.inner[i+1] < 0x1ffffff<<4
+	}
+	return ok
+}
+func sq2OutOK(e *Element) bool { return reducedOK(&e.inner) }
+func VerifAnyElement(name string) Element {
+	return *anyElement(name)
+}
+
+// condSel writes the selected limbs as if-then-else terms (what the mask arithmetic computes; the bit-precise
+// obligations ConditionalSelect/Assign/Swap show that equality for choice in {0,1}).
+func condSel(fe, a, b *Element, pickB bool) {
+	var r Element
+	for i := 0; i < 10; i++ {
+		if pickB {
+			r.inner[i] = b.inner[i]
+		} else {
+			r.inner[i] = a.inner[i]
+		}
+	}
+	*fe = r
+}
